@@ -319,3 +319,5 @@ CLAIMED["C18"]["text"] += (" Fourth round: character classes outside ASCII (fix 
 CLAIMED["C07"]["text"] += (" Fourth round: outcome classes RUNTIME (a recovered Go runtime panic handed back as an error text) and EMPTYMSG (a library error with an empty Message()), exponents near the machine word, "
                            "empty documents - fixes dbc9afe, db370ed, 6901580, 5b06c22.")
 CLAIMED["C04"]["text"] += (" Fourth round: rule parameters beyond 2^64 and item counts inside or rule-sets (fixes c58a671, 60afd49).")
+CLAIMED["C01"]["text"] += (" Fourth/fifth round: Schema/E2E.v composes the models into one executable pipeline inside Coq - schema text -> schema scanner -> loader -> w_of_node -> Shape.compile; document text -> JSON "
+                           "scanner -> machine events -> the event-level validator - and the check runs it from BOTH TEXTS against Schema.Validate on every generated case (verdict and error code).")
